@@ -43,6 +43,8 @@ def shards(tier, seed):
     out.append(("jac_worstcase", dict(kind="jac_worst", maxbits=1000)))
     out.append(("sqrt_all_small_primes_residues", dict(kind="sqrt_hard", count=2 if q else 8)))
     out.append(("sqrt_degenerate", dict(kind="sqrt_degenerate", per=4 if q else 40)))
+    for bits_, cls_ in ([(1800, (1,)), (1900, (5, 3))] if q else [(1800, (1, 5)), (2048, (1, 3)), (2500, (1,)), (3072, (1,)), (1536, (1, 5, 3))]):
+        out.append(("sqrt_huge_%d" % bits_, dict(kind="sqrt_huge", bits=[bits_], classes=list(cls_))))
     for i, ks in enumerate(([66, 129, 192], [130, 160, 256], [193, 224, 255]) if q else ([66, 96, 129], [130, 160, 192], [193, 224, 255], [256, 257, 320], [384, 448], [512, 521])):
         out.append(("sqrt_sparse_primes_%d" % i, dict(kind="sqrt_sparse", ks=ks)))
     out.append(("jac_huge_composite", dict(kind="jac_huge", count=30 if q else 300)))
@@ -312,6 +314,23 @@ def run(ctx, name, kind, **kw):
                 cand = cand[:6]
             for a in cand:
                 check_sqrt(ctx, a, p, extra=nm)
+    elif kind == "sqrt_huge":
+        # primes far above any curve's field (1800..3072 bits) in each residue class mod 8, dense bit patterns: window sizes and table
+        # bounds inside an exponentiation are functions of the exponent's LENGTH
+        small = nt.primes_below(2000)
+        for bits in kw["bits"]:
+            for want in kw["classes"]:
+                while True:
+                    c_ = rng.getrandbits(bits) | (1 << (bits - 1))
+                    c_ = c_ - (c_ % 8) + want
+                    if any(c_ % q_ == 0 for q_ in small):
+                        continue
+                    if pow(2, c_ - 1, c_) == 1 and nt.is_prime(c_, 2, rng):
+                        break
+                t_ = rng.randrange(2, c_)
+                for a_ in (t_ * t_ % c_, 4, rng.randrange(1, c_)):
+                    check_sqrt(ctx, a_, c_, extra="huge%d" % bits)
+                ctx.count("huge_primes")
     elif kind == "sqrt_sparse":
         # primes with a sparse / structured binary form (the shapes curve designers pick: 2^k +- d, 2^k - 2^j +- 1, c*2^k + 1): runs of zero or
         # one bits, aligned to machine words or not, in p and in the exponents derived from it ((p+1)/2, (p-1)/2, (p+3)/8, ...)
